@@ -11,10 +11,10 @@ import (
 
 func init() {
 	Register(&Prop{
-		ID: "C06",
+		ID:   "C06",
 		Expl: "Decides, over the four state tables extracted from swap/*.go and the SSA effect summaries of every action, that (R1) no state reachable by ANY event sequence from the success target of the claim-payment state has a key-disclosing action, and the only terminal state reachable is the preimage-claimed one; (R2) CoopCloseMessage.Privkey is only written inside actions used by taker tables; (R3) the pay state and its successors are not FailOnrecover and every call that creates a claim payment is dominated by a guard on the persisted preimage, so a restart between the post-payment store write and the next state does not re-pay and fall into the failure edge; (R4) where negotiation timers are armed and that they are never cancelled (so OnTimeout must be safe in every later state). The quantifier is over all states, edges and call sites, i.e. over all histories of accepted events.",
 		NotD: "Whether an HTLC is still in flight when the payment call returns an error (run-time state of the Lightning node); timing.",
-		Run: runC06,
+		Run:  runC06,
 	})
 }
 
